@@ -102,7 +102,8 @@ class FPContext(StandardBaseContext):
             if x.imag:
                 return False
             x = x.real
-        return x <= 0.0 and round(x) == x
+        # (x - x is nan for an infinity, which round cannot take)
+        return x <= 0.0 and x - x == 0.0 and round(x) == x
 
     mpf = float
     mpc = complex
@@ -158,9 +159,24 @@ class FPContext(StandardBaseContext):
     frexp = math.frexp
 
     def mag(ctx, z):
-        if z:
-            return ctx.frexp(abs(z))[1]
-        return ctx.ninf
+        if not z:
+            return ctx.ninf
+        if z != z:
+            return ctx.nan
+        if isinstance(z, int_types):
+            # (exact, also beyond the range of a float)
+            return len(bin(abs(z))) - 2
+        extra = 0
+        if type(z) is complex:
+            # (abs overflows for finite parts: |z| < 2*max(|re|, |im|))
+            a = max(abs(z.real), abs(z.imag))
+            if z.real and z.imag:
+                extra = 1
+        else:
+            a = abs(z)
+        if a == math2.INF:
+            return ctx.inf
+        return ctx.frexp(a)[1] + extra
 
     def isint(ctx, z):
         if hasattr(z, "imag"):   # float/int don't have .real/.imag in py2.5
